@@ -205,6 +205,13 @@ where
 }
 
 pub fn str_fail_case(c: &StrFailCase) -> Result<bool, String> {
+    fn fmt(p: *const ()) -> String {
+        format!("replaycase=<<{}>>", unsafe { &*(p as *const StrFailCase) }.text())
+    }
+    vcore::crash::with_inflight(c, fmt, || str_fail_case_inner(c))
+}
+
+fn str_fail_case_inner(c: &StrFailCase) -> Result<bool, String> {
     slab::select(0);
     slab::reset(0, SlabCfg::default());
     let _ = vcore::crash::take_last_panic();
